@@ -58,8 +58,10 @@ func (w *Worker) Mine(ctx context.Context, data []byte, targetScore float64) (ui
 	go func() {
 		select {
 		case <-ctx.Done():
+			verifEvent(evWatcherCtx, 0, 0)
 			atomic.StoreUint32(&done, 1)
 		case <-closing:
+			verifEvent(evWatcherClosing, 0, 0)
 			return
 		}
 	}()
@@ -79,25 +81,34 @@ func (w *Worker) Mine(ctx context.Context, data []byte, targetScore float64) (ui
 	for i := 0; i < w.numWorkers; i++ {
 		startNonce := uint64(i) * workerWidth
 		wg.Add(1)
+		verifEvent(evSpawn, uint64(i), 0)
 		go func() {
 			defer wg.Done()
+			defer verifEvent(evWgDone, startNonce, 0)
 
 			nonce, workerErr := w.worker(powDigest, startNonce, targetZeros, &done, &counter)
 			if workerErr != nil {
 				return
 			}
+			verifEvent(evStoreDone, startNonce, nonce)
 			atomic.StoreUint32(&done, 1)
+			verifEvent(evSend, startNonce, nonce)
 			results <- nonce
 		}()
 	}
 	wg.Wait()
+	verifEvent(evWaitReturned, 0, 0)
+	verifEvent(evCloseResults, 0, 0)
 	close(results)
+	verifEvent(evCloseClosing, 0, 0)
 	close(closing)
 
 	nonce, ok := <-results
 	if !ok {
+		verifEvent(evRecvNone, 0, 0)
 		return 0, ErrCancelled
 	}
+	verifEvent(evRecv, 0, nonce)
 	return nonce, nil
 }
 
@@ -119,6 +130,7 @@ func (w *Worker) worker(powDigest []byte, startNonce uint64, target uint, done *
 
 	digestTritsLen := b1t6.EncodedLen(len(powDigest))
 	for nonce := startNonce; atomic.LoadUint32(done) == 0; nonce += bct.MaxBatchSize {
+		verifEvent(evBatch, startNonce, nonce)
 		// add the nonce to each trit buffer
 		for i := range buf {
 			nonceBuf := buf[i][digestTritsLen:]
@@ -139,6 +151,7 @@ func (w *Worker) worker(powDigest []byte, startNonce uint64, target uint, done *
 			return nonce + uint64(i), nil
 		}
 	}
+	verifEvent(evSawDone, startNonce, 0)
 	return 0, ErrDone
 }
 
